@@ -95,6 +95,8 @@ def run(tier, seed, args):
     exe = vlib.build_harness()
     deep = tier == "thorough"
     queue_model(v, wd, deep)
+    if deep:
+        vlib.tlaps(v, wd, "QueueLemmas", ["Conservation", "AllArrive", "PaddingBound", "NoPaddingValuesFromByteWide"])
     cases = encoder_cases(wd, deep)
     log(f"[C03] (A) MC_Encode: {len(cases)} scene x layout cases, decoder(encoder(case)) = case for each")
     inp, n = build_inputs(cases, wd, "c03")
